@@ -17,7 +17,7 @@ RULE = ("Cases: generated tree with non-empty total payload (any content incl. a
 ASSUMPTIONS = [
     "vf/ref/metafile.py emits specification-conformant metafiles (guarded: vf/ref/recheck.py must report 100% on each before the tool is asked)",
     "the parent directory's own name differs from the payload name (a parent named like the payload is inherently ambiguous for find_root)",
-    "file names are valid UTF-8; no symlinks/special files",
+    "file names are valid UTF-8; symbolic links to files and directories inside the tree are generated (the tool follows them: linked content is payload under the link's name); no special files; the content path may itself be a symlink",
 ]
 BUDGET = {
     "quick": {"examples": 450, "workers": 8, "time_cap": 70},
